@@ -444,7 +444,8 @@ float64_t igris_atof64(const char *nptr, char **endptr)
 
         while ((*nptr >= '0' && *nptr <= '9'))
         {
-            e_val = e_val * 10 + (*nptr - '0');
+            if (e_val < 100000)
+                e_val = e_val * 10 + (*nptr - '0');
             nptr++;
         }
         d += e_val * e_sign;
